@@ -2,6 +2,8 @@
 
 package trie
 
+import "sort"
+
 // VerifWalk visits every node of the trie (root included) with the path that
 // leads to it, whether its child map is nil, and how many of its child
 // pointers are nil. Children are visited in ascending key order. fn's path
@@ -13,12 +15,11 @@ func (t *Trie) VerifWalk(fn func(path []byte, nilMap bool, nilChildren int)) {
 		i    int
 	}
 	sortedKeys := func(t *Trie) []int {
-		var ks []int
-		for k := 0; k < 256; k++ {
-			if _, ok := t.m[byte(k)]; ok {
-				ks = append(ks, k)
-			}
+		ks := make([]int, 0, len(t.m))
+		for k := range t.m {
+			ks = append(ks, int(k))
 		}
+		sort.Ints(ks)
 		return ks
 	}
 	visit := func(t *Trie, path []byte) {
